@@ -1,6 +1,7 @@
 //! One module per property. Each exposes `pub fn run(run: &mut Run) -> &'static str` (returns its rule text).
 pub mod collide;
 pub mod common;
+pub mod fuzzglue;
 pub mod hist;
 pub mod searchlib;
 pub mod ucilib;
